@@ -64,6 +64,11 @@ def programs(thorough: bool) -> list[dict]:
                 if k1["mr"] == k2["mr"]:
                     out.append(node(fl, mr, sc, [k1, k2], "group_first"))
                     out.append(node(fl, mr, sc, [k1, k2, k1], "group_first"))
+    # a group of identical members submitted with common_args (the shared node description travels once)
+    for fl, mr, sc in roots[:2]:
+        for k in plain_kids[:2]:
+            out.append(node(fl, mr, sc, [k, k], "group_common"))
+            out.append(node(fl, mr, sc, [k, k, k], "group_common"))
     grand = [kids1[0], kids1[1], kids1[2], kids1[4]]
     for fl, mr, sc in roots:
         for mfl in "pd":
